@@ -159,7 +159,7 @@ void chacha_keystream_xor(struct ChaCha *ctx, const void *plain, void *encrypted
 		n = (bytes > avail) ? avail : bytes;
 
 		for (i = 0; i < n; i++)
-			dst[i] = src[i] ^ ks[i];
+			dst[i] = src[i] ^ ks[ctx->pos + i];
 
 		bytes -= n;
 		dst += n;
